@@ -51,8 +51,8 @@ def build_corpus(tier):
     types = TYPES_QUICK if tier == "quick" else TYPES_FULL
     ws = []
     ops = operands(types)
-    rights_q = [("same", None), ("tainted<int>", lv("tainted", "int")), ("plain 1", "1"), ("nullptr", "nullptr")]
-    rights_f = rights_q + [("tainted_volatile<int>", lv("tainted_volatile", "int")), ("plain ptr", "vb_gp"), ("plain 1.5", "1.5"), ("hint", "vb_lv<tainted_boolean_hint>()")]
+    rights_q = [("same", None), ("tainted<int>", lv("tainted", "int")), ("plain 1", "1"), ("nullptr", "nullptr"), ("hint", "vb_lv<tainted_boolean_hint>()"), ("tainted_volatile<int>", lv("tainted_volatile", "int"))]
+    rights_f = rights_q + [("plain ptr", "vb_gp"), ("plain 1.5", "1.5"), ("inthint", "vb_lv<tainted_int_hint>()"), ("tainted_volatile<bool>", lv("tainted_volatile", "bool"))]
     rights = rights_q if tier == "quick" else rights_f
     lefts_plain = [("plain 1", "1")] if tier == "quick" else [("plain 1", "1"), ("plain ptr", "vb_gp"), ("nullptr", "nullptr"), ("plain 1.5", "1.5")]
     for wname, T, a in ops:
@@ -62,7 +62,7 @@ def build_corpus(tier):
         for op in BINOPS:
             for rname, r in rights:
                 rr = a if r is None else r
-                r_vol_hint = (r is None and volatile_or_hint) or "tainted_volatile" in rname or rname == "hint"
+                r_vol_hint = (r is None and volatile_or_hint) or "tainted_volatile" in rname or rname in ("hint", "inthint")
                 desc = "%s<%s> %s %s" % (wname, T, op, rname)
                 if op in CMPS and (volatile_or_hint or r_vol_hint) and wname not in ("tainted_opaque",):
                     ws.append(expr_w("%s %s %s" % (a, op, rr), desc + " [must be a hint]", want_hint=True, group="cmp-hint"))
